@@ -4,11 +4,7 @@
 //! This representation is only relevant in the parser where we need to
 //! have lists of all variable types.
 //!
-use dsl::{
-    common::*,
-    configuration::AccessDeclaration,
-    core::{Id, SourceSpan},
-};
+use dsl::{common::*, configuration::AccessDeclaration, core::Id};
 
 /// Defines VarDecl type without the type information (e.g. input, output).
 /// Useful only as an intermediate step in the parser where we do not know
@@ -85,11 +81,7 @@ impl From<IncomplVarDecl> for VarDecl {
         };
 
         Self {
-            identifier: VariableIdentifier::Direct(DirectVariableIdentifier {
-                name: Some(val.name),
-                address_assignment: val.loc,
-                span: SourceSpan::default(),
-            }),
+            identifier: VariableIdentifier::new_direct(Some(val.name), val.loc),
             var_type: VariableType::Var,
             qualifier: val.qualifier,
             initializer: init,
